@@ -131,7 +131,7 @@ func UserDone(bci any, stub shim.ChaincodeStubInterface, symbol, swapID string, 
 			return shim.Error(err.Error())
 		}
 	} else {
-		if err = ledger.TokenBalanceAdd(stub, symbol, types.AddrFromBytes(s.GetOwner()), new(big.Int).SetBytes(s.GetAmount()), s.GetToken()); err != nil {
+		if err = ledger.TokenBalanceAddWithTicker(stub, symbol, types.AddrFromBytes(s.GetOwner()), new(big.Int).SetBytes(s.GetAmount()), s.GetToken(), "reverse swap done"); err != nil {
 			return shim.Error(err.Error())
 		}
 	}
